@@ -197,7 +197,7 @@ example : parseChain (ex4_bytes.length + 2) "IP" ex4_bytes = .ok ex4_re := rfl
 example : ∃ out, serializeObjs ex4_re = .ok out ∧
     ∃ os', parseChain (out.length + 2) "IP" out = .ok os' ∧ ViewEqAll (padAll ex4_re) ex4_re os' :=
   c03_all "IP" ex4_bytes ex4_re (by decide) rfl
-    ⟨(by show (_ : Nat) < 65536; decide), ⟨⟨by decide, by decide⟩, rfl, fun h => absurd h (by decide)⟩, trivial, trivial⟩
+    ⟨(by show (_ : Nat) < 65536; decide), ⟨rfl, fun h => absurd h (by decide)⟩, trivial, trivial⟩
     (fun o t h => by injection h with h1 _; injection h1 with h1; subst h1; rfl)
 
 /-! #### more accepted byte strings through `c03_all_net` (the parsed stacks are what `parseChain` returns: `rfl`) -/
@@ -290,7 +290,7 @@ example : ∃ out, serializeObjs exE_os = .ok out ∧
       (splitRaw os').2 = (splitRaw exE_os).2 :=
   c03_all_net "SLL" exE_bytes exE_os (by decide) rfl
     ⟨trivial, trivial, (by show (_ : Nat) < 65536; decide), (by show (_ : Nat) < 65536; decide),
-     ⟨⟨by decide, by decide⟩, rfl, fun h => absurd h (by decide)⟩, trivial, trivial⟩
+     ⟨rfl, fun h => absurd h (by decide)⟩, trivial, trivial⟩
     (fun o t h => by cases h) ⟨_, List.mem_cons_of_mem _ (List.mem_cons_of_mem _ List.mem_cons_self), rfl⟩
 
 /-! #### the hypotheses matter -/
